@@ -261,7 +261,7 @@ Mandatory(t) ==
       [] t = 10 -> 72
       [] t = 12 -> 78
       [] t = 14 -> 46
-      [] t = 15 -> 88
+      [] t = 15 -> 76      \* first station's MMSI and first request type; the slot offset may be cut off
       [] t = 16 -> 92
       [] t = 17 -> 120
       [] t = 19 -> 312
